@@ -8,6 +8,11 @@ def run(c):
     obl_fixed.obl_layout_key(c, budget_s=1200)
     # the same property on the layout object the crate's own Layout::parse builds from the file content (whatever the representation)
     obl_fixed.obl_layout_table(c, thorough=(c.tier == "thorough"), budget_s=1200 if c.tier == "quick" else 3000)
+    # "keys with an empty or missing assignment and keys outside the layout change nothing": from every state, idle ones that still hold the
+    # candidate list of an erased word included, with the suggestion list on or off
+    c.only_clauses = {"key_without_value_changes_nothing", "stale_scratch_candidates_not_observable", "nonempty_return_means_ongoing"}
+    obl_fixed.obl_session_fixed(c, 2, 1, 1, budget_s=600, events=("nokey",))
+    c.only_clauses = None
     # "the loaded layout file": also the file loaded by a re-configuration of a live context (fixed layout -> another fixed layout)
     import obl_context
     obl_context.obl_layout_switch(c, budget_s=600)
